@@ -18,18 +18,10 @@ in particular for the input configuration of a legal floorplan).
 """
 from __future__ import annotations
 
-import contextlib
-import io
-import shutil
 from fractions import Fraction
 
-import gekko as _gk
-
 from vcheck import Ctx, f2hex, hex2f
-from frame.netlist.netlist import Netlist
-from frame.geometry.geometry import Rectangle
-from tools.legalfloor import legalfloor as lf, expression_tree as et, model as lm
-from tools.legalfloor.expression_tree import NodeType
+from legal_common import Built, ser_eq, ser_utils, cleanup as _cleanup
 
 LEVEL = "proof"
 DRIVERS = ["drv_legal"]
@@ -45,27 +37,7 @@ TRUSTED = [
 ]
 
 GROUPS = ["Bounds", "Shapes", "Area", "Attach", "Intra", "Inter", "Fix"]
-LOC = {"TRUNK": "T", "NORTH": "N", "SOUTH": "S", "EAST": "E", "WEST": "W", "NO_POLYGON": "X"}
 SIDES = "NSEW"
-
-_made: list[str] = []
-
-
-class _RecGEKKO(_gk.GEKKO):
-    """GEKKO that remembers its scratch directory (removed after each instance)."""
-
-    def __init__(self, *a, **k):
-        super().__init__(*a, **k)
-        _made.append(self._path)
-
-
-lf.GEKKO = lm.GEKKO = _RecGEKKO
-
-
-def _cleanup():
-    while _made:
-        shutil.rmtree(_made.pop(), ignore_errors=True)
-
 
 # ----------------------------------------------------------------------------- instances (integer lattice, then scaled)
 def _even(rng, lo, hi):
@@ -172,90 +144,6 @@ def yaml_of(inst) -> str:
     names = ["M%d" % k for k in range(len(inst["mods"]))]
     nets = "[[%s]]" % ", ".join(names) if len(names) > 1 else "[]"
     return "Modules: {\n" + ",\n".join(lines) + "\n}\nNets: " + nets + "\n"
-
-
-# ----------------------------------------------------------------------------- implementation side
-class Built:
-    """the real Model for a YAML netlist + die + ratio, its equations and variables."""
-
-    def __init__(self, yaml: str, dw: float, dh: float, r: float):
-        Rectangle.undefine_epsilon()
-        self.netlist = Netlist(yaml)
-        self.dw, self.dh, self.r = dw, dh, r
-        self.inmods = []
-        for m in self.netlist.modules:
-            rs = [(r_.center.x, r_.center.y, r_.shape.w, r_.shape.h, LOC[r_.location.name]) for r_ in m.rectangles]
-            self.inmods.append({"hard": bool(m.is_hard), "fixed": bool(m.is_fixed), "area": m.area(), "rects": rs})
-        self.utils = lf.netlist_to_utils(self.netlist)
-        ml, al, xl, yl, wl, hl, hyper, names = self.utils
-        buf = io.StringIO()
-        with contextlib.redirect_stdout(buf):
-            self.model = lf.Model(ml, al, xl, yl, wl, hl, dw, dh, hyper, r, names, 0.9, 0.3, 1)
-        et.set_epsilon(et.ExpressionTree(self.model.gekko.gekko, 0.0))
-        self.eqs: list[tuple[str, object]] = []
-        for mac in self.model.gekko.macros:
-            self.eqs += list(mac.get_constraints(self.model.gekko))
-        for g in ("Area", "Inter", "Fix"):
-            self.eqs += [(g, e) for e in self.model.gekko.constraints.get(g, [])]
-        self.other_groups = {g: len(v) for g, v in self.model.gekko.constraints.items() if g not in ("Area", "Inter", "Fix")}
-
-    def var_bounds(self):
-        out = set()
-        for ws, hs in zip(self.model.w, self.model.h):
-            for t in ws + hs:
-                out.add((t.data["lb"], ))
-        return sorted(x[0] for x in out)
-
-    def assign(self, cfg) -> None:
-        M = self.model
-        for m, boxes in enumerate(cfg):
-            for i, (x, y, w, h) in enumerate(boxes):
-                M.x[m][i].assign(float(x))
-                M.y[m][i].assign(float(y))
-                M.w[m][i].assign(float(w))
-                M.h[m][i].assign(float(h))
-
-    def observe(self):
-        out = []
-        for g, e in self.eqs:
-            try:
-                out.append((float(e.lhs.evaluate()), float(e.rhs.evaluate()), bool(e.is_equation_met())))
-            except Exception as ex:  # noqa: BLE001
-                out.append(("err:" + type(ex).__name__,))
-        return out
-
-
-def ser_tree(t) -> str:
-    ty = t.type
-    if ty == NodeType.CST:
-        return "c:" + f2hex(t.value)
-    if ty == NodeType.VAR:
-        return "v:" + t.data["name"]
-    if ty == NodeType.SRT:
-        return "s " + ser_tree(t.value[0])
-    sym = {NodeType.ADD: "+", NodeType.SUB: "-", NodeType.MUL: "*", NodeType.DIV: "/", NodeType.EXP: "^"}[ty]
-    return sym + " " + ser_tree(t.value[0]) + " " + ser_tree(t.value[1])
-
-
-def ser_eq(g, e) -> str:
-    return "%s|%s|%s|%d|%s|%s" % (g, e.name, e.cmp.name, int(bool(e.hard)), ser_tree(e.lhs), ser_tree(e.rhs))
-
-
-def ser_utils(u) -> str:
-    ml, al, xl, yl, wl, hl, _, _ = u
-
-    def box(b):
-        return " ".join(f2hex(v) for v in b)
-
-    def boxes(bs):
-        return str(len(bs)) + "".join(" " + box(b) for b in bs)
-
-    def mat(t):
-        return "{" + " ".join("%d:{%s}" % (k, " ".join("%d:%s" % (i, f2hex(x)) for i, x in d.items())) for k, d in t.items()) + "}"
-
-    return ("ml " + " | ".join("%s N %s S %s E %s W %s" % (box(b[0]), boxes(b[1]), boxes(b[2]), boxes(b[3]), boxes(b[4])) for b in ml)
-            + " ; al " + " ".join(f2hex(a) for a in al)
-            + " ; xl " + mat(xl) + " ; yl " + mat(yl) + " ; wl " + mat(wl) + " ; hl " + mat(hl))
 
 
 def wire_mods(inmods) -> str:
@@ -516,7 +404,8 @@ def check_instance(ctx: Ctx, inp: dict, nvar: int, fixed_cfgs=None) -> None:
         B = Built(yaml, dw, dh, r)
     except Exception as ex:  # noqa: BLE001
         _cleanup()
-        ctx.spec_fail("build", inp, {"raises": type(ex).__name__, "msg": str(ex)[:200]}, size)
+        ctx.spec_fail("operation-raised", inp, {"operation": "Netlist / netlist_to_utils / Model(...)", "raises": type(ex).__name__,
+                                                "msg": str(ex)[:200]}, size)
         return
     try:
         _check_built(ctx, inp, B, nvar, fixed_cfgs, size)
@@ -560,8 +449,12 @@ def _check_built(ctx: Ctx, inp, B: Built, nvar, fixed_cfgs, size) -> None:
 
     # implementation observations
     obs = []
-    for (_, c) in cfgs:
-        B.assign(c)
+    for (what, c) in cfgs:
+        try:
+            B.assign(c)
+        except Exception as ex:  # noqa: BLE001
+            ctx.spec_fail("operation-raised", dict(inp, what=what), {"operation": "ExpressionTree.assign", "raises": type(ex).__name__}, size)
+            return
         obs.append(B.observe())
 
     if replies is not None:
@@ -625,6 +518,8 @@ def _check_built(ctx: Ctx, inp, B: Built, nvar, fixed_cfgs, size) -> None:
         label = "legal" if not viol and not unsure else ("unsure" if unsure and not viol else "violates:" + "+".join(sorted(viol)))
         ctx.case("spec", (key, tuple(tuple(b) for boxes in c for b in boxes)), label != "unsure", None)
         ctx.count("cfg:" + label)
+        if any(b[2] < 0.1 or b[3] < 0.1 for boxes in c for b in boxes):
+            ctx.count("cfg-with-a-side-below-variable-bound-0.1")
         if what == "input":
             ctx.count("input:" + label)
         for g in GROUPS:
